@@ -234,6 +234,7 @@ def run(rep, repo, tier):
         rep.inconclusive('C16.R3', parse_where, 'the guards of the parser.error calls can be evaluated on two-criterion valuations', got=str(u))
     check_helper(rep, repo, helper, N)
     check_extras_isolation(rep, repo, tier)
+    check_extras_not_consumed(rep, repo)
 
     # ---- R4 ----------------------------------------------------------------------------------------------
     stability_requires_twopl(rep, repo, 'C16.R4')
@@ -401,6 +402,17 @@ def check_helper(rep, repo, helper, N, r1='C16.R1', r3='C16.R3', r6='C16.R6'):
         want = ('tuple', (opt, ('slice', args_, C(1), NONE))) if case == 'list' else ('tuple', (opt, NONE))
         rep.check(val == want, r6, where, ('list-valued flag keeps (criterion, arguments[1:])' if case == 'list' else 'scalar flag gives (criterion, None)'),
                   got=show(val).replace(show(b), 'it'), want=show(want).replace(show(b), 'it'), construct='extras of %s flag: %s' % (case, show(val).replace(show(b), 'it')))
+
+
+def check_extras_not_consumed(rep, repo):
+    """R6 (history): the extras stay with their criterion for every later solve - nothing on the solve / getter path pops,
+    clears or overwrites the parsed option containers (mutation summaries of C18.R3)"""
+    from ..effects import Effects
+    from .c18 import check_options_readonly, GETTERS
+    E = Effects(repo)
+    solve = repo.method('Solver', 'solve')
+    getters = [repo.method('Solver', g) for g in GETTERS]
+    check_options_readonly(rep, repo, E, solve, getters, len(E.analyse(solve)), 'C16.R6')
 
 
 def check_extras_isolation(rep, repo, tier):
